@@ -9,7 +9,10 @@ Open Scope Z_scope.
 (* ---------- threads ---------- *)
 Definition same_thread (a b : ev) : bool := (pid a =? pid b) && (tid a =? tid b).
 Definition thread_of (l : list ev) (e : ev) : list ev := filter (same_thread e) l.
-Definition is_cpu_thread (l : list ev) (e : ev) : bool := forallb (fun x => stream x <? 0) (thread_of l e).
+(* a (pid, tid) group gets a call stack unless all its rows are device rows (types.infer_device_type: GPU); a group that mixes rows with
+   and without a stream (UNKNOWN) gets one too, built from its rows without a stream (_construct_call_stack_graph: df.stream.eq(-1)) *)
+Definition is_cpu_thread (l : list ev) (e : ev) : bool := negb (forallb (fun x => 0 <? stream x) (thread_of l e)).
+Definition host_part (l : list ev) (e : ev) : list ev := filter (fun x => stream x =? -1) (thread_of l e).
 (* representative (first row) of every thread *)
 Fixpoint thread_heads (seen l : list ev) : list ev :=
   match l with
@@ -19,9 +22,9 @@ Fixpoint thread_heads (seen l : list ev) : list ev :=
 Definition cpu_thread_heads (l : list ev) : list ev := filter (is_cpu_thread l) (thread_heads [] l).
 
 (* ---------- parent map: host trees (C03's new builder) + device children ---------- *)
-Definition host_edges (l : list ev) : list (Z * Z) := flat_map (fun h => parents_new (thread_of l h)) (cpu_thread_heads l).
+Definition host_edges (l : list ev) : list (Z * Z) := flat_map (fun h => parents_new (host_part l h)) (cpu_thread_heads l).
 Definition in_cpu_thread (l : list ev) (i : Z) : bool :=
-  existsb (fun e => (idx e =? i) && is_cpu_thread l e) l.
+  existsb (fun e => (idx e =? i) && is_cpu_thread l e && (stream e =? -1)) l.
 (* get_cpu_gpu_correlation + _link_cpu_and_gpu: a device row on a positive stream with a positive link becomes a child of the linked host row *)
 Definition dev_edges (l : list ev) : list (Z * Z) :=
   map (fun k => (idx k, icorr k)) (filter (fun k => (0 <? stream k) && (0 <? icorr k) && in_cpu_thread l (icorr k)) l).
